@@ -146,7 +146,13 @@ def pressure_case(draw, tier="quick"):
             cur += draw(gen.pos_dyadic(3, 4)) * draw(st.sampled_from([1, 1, 1, -1, 0]))
         else:
             cur += draw(gen.dyadic(3, -4, 4))
-    return {"p": p, "carrier": draw(st.sampled_from(["array", "list"]))}
+    carrier = draw(st.sampled_from(["array", "list", "list", "uint", "int16", "masked", "series"]))
+    if carrier in ("uint", "int16"):
+        # raw counts: whole numbers (unsigned: non-negative) - differences of unsigned integers wrap unless widened
+        p = [float(abs(round(v))) for v in p]
+    if carrier in ("list", "masked", "array", "series") and draw(st.integers(0, 2)) == 0:
+        p = draw(gen.overlay_missing(p, markers=st.just(None)))
+    return {"p": p, "carrier": carrier, "junk": draw(st.sampled_from([0.0, 999.0, -999.0, 9.96921e36]))}
 
 
 def check_pressure(case, rec):
@@ -154,15 +160,20 @@ def check_pressure(case, rec):
     n = len(p)
     allowed = model.model_pressure(p)
     site = "argo.pressure_increasing_test"
-    inp = arr(p) if case["carrier"] == "array" else list(p)
+    from .. import carriers
+    kind = {"array": "f64", "list": "list_none", "uint": "uint", "int16": "int16", "masked": "masked_junk", "series": "series"}[case.get("carrier", "array")]
+    if not carriers.data_applicable(kind, p):
+        kind = "f64"
+    inp = carriers.data(p, kind, case.get("junk", 0.0))
     got = flags(rec, site, rec.call(site, _pi(), inp), n)
     if allowed is None:
         rec.skip("zero_mean_step")
         return
-    steps = [b - a for a, b in zip(p, p[1:])]
+    steps = [b - a for a, b in zip(p, p[1:]) if not model.miss(a) and not model.miss(b)]
     rep = any(d == 0 for d in steps)
     rev = any(d > 0 for d in steps) and any(d < 0 for d in steps)
-    labels = [lab for lab, on in (("repeat", rep), ("reversal", rev), ("upcast", n > 1 and p[-1] < p[0])) if on]
+    labels = [lab for lab, on in (("repeat", rep), ("reversal", rev), ("upcast", sum(steps) < 0),
+                                  ("has_missing", any(model.miss(v) for v in p))) if on] + [f"carrier={kind}"]
     rec.note(rep or rev, labels)
     if got is SKIP:
         return
